@@ -6,7 +6,7 @@
    lie in one NTP era k (Time64 comparison wraps at era boundaries), capacities
    are arbitrary positive numbers; [reachable] = reached from the empty store by
    such a history, together with the log of all replies and reports so far. *)
-From ST Require Import Base.Ints Model.NtpTime Model.Tss Model.TssOracle Model.TssListenerOracle Proofs.TssProofs Proofs.TssInv Proofs.TssRun Proofs.TssOracleProofs Proofs.TssListenerProofs.
+From ST Require Import Base.Ints Model.NtpTime Model.Tss Model.TssOracle Model.TssListenerOracle Proofs.TssProofs Proofs.TssInv Proofs.TssRun Proofs.TssOracleProofs Proofs.TssListenerProofs Proofs.TssFrame.
 From Coq Require Import ZArith List.
 Import ListNotations.
 Open Scope Z_scope.
@@ -120,6 +120,101 @@ Proof.
   exact (model_update_oracle k c s cid rxt txt HI E1 E2 E3).
 Qed.
 Print Assumptions C06_model_meets_update_oracle.
+
+(* the receive stamp a reply carries, exactly: the time reported back is the FIRST one at or after
+   the packet's receive time whose stamp is distinct from all receive stamps kept for the client -
+   unchanged when the packet's own stamp collides with none (then the transmit time is the clock
+   reading, or receive time + 1 ns when the clock is not later), every skipped nanosecond collides
+   with a kept stamp, and the move is at most one nanosecond per kept exchange (<= 8 ns) *)
+Theorem C06_receive_stamp : forall k c s log cid q rxt now victim out,
+  0 < icap c -> 0 <= cap c -> reachable k c s log ->
+  in_era k rxt -> in_era k (rxt + icap c + 1) ->
+  handle c s cid q rxt now victim = Some out ->
+  rxt <= o_rxt out <= rxt + Z.of_nat (length (ents_of_client s cid)) /\
+  Z.of_nat (length (ents_of_client s cid)) <= icap c /\
+  (forall d, rxt <= d < o_rxt out -> has_rx (to64 d) (ents_of_client s cid) = true) /\
+  has_rx (to64 (o_rxt out)) (ents_of_client s cid) = false /\
+  (has_rx (to64 rxt) (ents_of_client s cid) = false ->
+     o_rxt out = rxt /\ o_txt out = if rxt <? now then now else rxt + 1).
+Proof.
+  intros k c s log cid q rxt now victim out Hi Hc Hr E1 E2 Hh.
+  destruct (reachable_inv k c Hi s log Hc Hr) as [[Hnd [Hcap [Hall Hhq]]] _].
+  destruct (handle_rxt_spec c s cid q rxt now victim out Hh) as [H1 [H2 [H3 H4]]].
+  assert (Hb : o_rxt out <= rxt + Z.of_nat (length (ents_of_client s cid)) /\ Z.of_nat (length (ents_of_client s cid)) <= icap c).
+  { unfold ents_of_client in *. destruct (find_item cid (items s)) as [it|] eqn:Hfind.
+    - destruct (find_item_In _ _ _ Hfind) as [Hin _].
+      assert (Hok : item_ok c it) by (rewrite Forall_forall in Hall; apply Hall; exact Hin).
+      split; [exact (handle_rxt_bound k c s cid q rxt now victim it out Hfind Hok E1 E2 Hh)|]. destruct Hok as [_ [Hl _]]. exact Hl.
+    - cbn [length]. split; [|lia].
+      destruct (Z.eq_dec (o_rxt out) rxt) as [E|E]; [lia|]. specialize (H2 rxt). cbn in H2. discriminate H2. lia. }
+  destruct Hb as [Hb1 Hb2]. split; [lia|]. split; [exact Hb2|]. split; [exact H2|]. split; [exact H3|].
+  intros Hfree. assert (o_rxt out = rxt).
+  { destruct (Z.eq_dec (o_rxt out) rxt) as [E|E]; [exact E|]. rewrite (H2 rxt) in Hfree by lia. discriminate Hfree. }
+  split; [assumption|auto].
+Qed.
+Print Assumptions C06_receive_stamp.
+
+(* the interleaved clause against the STATE (not the log): the transmit stamp served is the one
+   of THE exchange stored for this client whose receive stamp equals the request's origin (there is
+   exactly one such exchange; receive stamps may recur in the log after removals, in the store
+   they are distinct), and it is later than that receive stamp *)
+Theorem C06_interleaved_serves_stored : forall k c s log cid q rxt now victim out,
+  0 < icap c -> 0 <= cap c -> reachable k c s log ->
+  in_era k rxt -> in_era k (rxt + icap c + 1) -> in_era k now ->
+  handle c s cid q rxt now victim = Some out ->
+  r_inter (o_reply out) = true ->
+  exists it e, find_item cid (items s) = Some it /\ In e (it_ents it) /\
+    e_rx e = q_org q /\ r_tx (o_reply out) = e_tx e /\ e_rx e < e_tx e /\
+    (forall e', In e' (it_ents it) -> e_rx e' = q_org q -> e' = e).
+Proof.
+  intros k c s log cid q rxt now victim out Hi Hc Hr E1 E2 E3 Hh Hint.
+  destruct (reachable_inv k c Hi s log Hc Hr) as [HI _].
+  exact (interleaved_serves_stored k c Hi s cid q rxt now victim out HI E1 E2 E3 Hh Hint).
+Qed.
+Print Assumptions C06_interleaved_serves_stored.
+
+(* isolation, as a frame property of the two operations (no invariant needed for the first part):
+   - the reply to a client and the times reported back are a function of the request and of the
+     client's OWN item: two stores that agree on that item give the same reply, whatever they hold
+     for other clients (and whichever client the queue evicts);
+   - a request leaves every other client's item as it was (the evicted client loses its item);
+   - a transmit-timestamp report leaves every other client's item as it was. *)
+Theorem C06_isolation : forall c s s' cid q rxt now victim victim' out out',
+  find_item cid (items s) = find_item cid (items s') ->
+  handle c s cid q rxt now victim = Some out ->
+  handle c s' cid q rxt now victim' = Some out' ->
+  o_reply out = o_reply out' /\ o_rxt out = o_rxt out' /\ o_txt out = o_txt out'.
+Proof. exact handle_reply_frame. Qed.
+Print Assumptions C06_isolation.
+
+Theorem C06_frame : forall k c s log,
+  0 < icap c -> 0 <= cap c -> reachable k c s log ->
+  (forall cid q rxt now victim out, handle c s cid q rxt now victim = Some out ->
+     forall x, In x (items (o_state out)) -> it_key x <> cid -> In x (items s)) /\
+  (forall cid rxt txt x, In x (items (t_state (update_tx s cid rxt txt))) -> it_key x <> cid -> In x (items s)).
+Proof.
+  intros k c s log Hi Hc Hr. destruct (reachable_inv k c Hi s log Hc Hr) as [[Hnd _] _]. split.
+  - intros cid q rxt now victim out Hh. exact (handle_items_frame c s cid q rxt now victim out Hnd Hh).
+  - intros cid rxt txt. exact (update_tx_items_frame s cid rxt txt Hnd).
+Qed.
+Print Assumptions C06_frame.
+
+(* the full per-request oracle (reply clauses; the reported receive time is the first free stamp, moved
+   by at most one nanosecond per kept exchange; this reply's exchange is on record afterwards with the
+   software transmit time unless the client - unknown before - was served without state; nothing else
+   appeared in the client's record) accepts the model in every reachable state *)
+Theorem C06_model_meets_full_handle_oracle : forall k c s log cid q rxt now victim out,
+  0 < icap c -> 0 <= cap c -> reachable k c s log ->
+  in_era k rxt -> in_era k (rxt + icap c + 1) -> in_era k now ->
+  handle c s cid q rxt now victim = Some out ->
+  C06_handle_full_ok (pre_of s cid) q rxt now (r_org (o_reply out)) (r_rx (o_reply out)) (r_tx (o_reply out))
+    (o_rxt out) (o_txt out) (post_of (o_state out) cid) = true.
+Proof.
+  intros k c s log cid q rxt now victim out Hi Hc Hr E1 E2 E3 Hh.
+  destruct (reachable_inv k c Hi s log Hc Hr) as [HI _].
+  exact (model_handle_full_oracle k c Hi s cid q rxt now victim out HI E1 E2 E3 Hh).
+Qed.
+Print Assumptions C06_model_meets_full_handle_oracle.
 
 (* ---- at the listeners ----
    What a client sees on the wire (Model/TssListenerOracle.v): the listener-level
